@@ -113,7 +113,8 @@ class ProductState:
         return self.states == other.states
 
     def __hash__(self):
-        return hash(tuple(self.states.items()))
+        # Equality compares the mapping, whatever order it was written in.
+        return hash(frozenset(self.states.items()))
 
     def _json_dict_(self) -> dict[str, Any]:
         return {'states': list(self.states.items())}
